@@ -21,7 +21,7 @@ func (t *TextTemplater) Apply(payload []byte, metadata map[string]string, variab
 	const op = "scenario/TextTemplater.Apply"
 
 	strBuilder := &strings.Builder{}
-	tmpl, err := t.getTemplate(string(payload), scenarioName, stepName, "payload")
+	tmpl, err := t.getTemplate(string(payload), templateKey{scenario: scenarioName, step: stepName, part: partPayload})
 	if err != nil {
 		return nil, fmt.Errorf("%s, template.getTemplate payload, %w", op, err)
 	}
@@ -33,7 +33,7 @@ func (t *TextTemplater) Apply(payload []byte, metadata map[string]string, variab
 	strBuilder.Reset()
 
 	for k, v := range metadata {
-		tmpl, err = t.getTemplate(v, scenarioName, stepName, k)
+		tmpl, err = t.getTemplate(v, templateKey{scenario: scenarioName, step: stepName, part: partMetadata, key: k})
 		if err != nil {
 			return nil, fmt.Errorf("%s, template.Execute Header %s, %w", op, k, err)
 		}
@@ -47,16 +47,30 @@ func (t *TextTemplater) Apply(payload []byte, metadata map[string]string, variab
 	return []byte(payloadStr), nil
 }
 
-func (t *TextTemplater) getTemplate(tmplBody, scenarioName, stepName, key string) (*template.Template, error) {
-	urlKey := fmt.Sprintf("%s_%s_%s", scenarioName, stepName, key)
-	tmpl, ok := t.templatesCache.Load(urlKey)
+const (
+	partPayload  = "payload"
+	partMetadata = "metadata"
+)
+
+// templateKey identifies one template of a scenario step. It is a struct, not a joined string, so that
+// names containing the separator, or a metadata key called "payload", cannot collide with another template.
+type templateKey struct {
+	scenario string
+	step     string
+	part     string
+	key      string
+}
+
+func (t *TextTemplater) getTemplate(tmplBody string, key templateKey) (*template.Template, error) {
+	tmpl, ok := t.templatesCache.Load(key)
 	if !ok {
 		var err error
-		tmpl, err = template.New(urlKey).Funcs(templater.GetFuncs()).Parse(tmplBody)
+		name := fmt.Sprintf("%s_%s_%s_%s", key.scenario, key.step, key.part, key.key)
+		tmpl, err = template.New(name).Funcs(templater.GetFuncs()).Parse(tmplBody)
 		if err != nil {
 			return nil, fmt.Errorf("scenario/TextTemplater.Apply, template.New, %w", err)
 		}
-		t.templatesCache.Store(urlKey, tmpl)
+		t.templatesCache.Store(key, tmpl)
 	}
 	return tmpl.(*template.Template), nil
 }
